@@ -221,12 +221,19 @@ def remove_SplitSliceRead(op, arch):
         # Check if it is possible to put the SplitSliceRead on the tensor consumer(s),
         # or if an avgpool need to be inserted
         # Not possible to do if consumer is a Transpose op since ifm shape has been reshaped and can not be changed
+        # In general the consumer must see the tensor with the shape the slice produces (the ops of a Softmax, for
+        # example, work on a flattened view)
         if op.ofm_shapes[0] == Shape4D.from_list(op.ofm.shape) and all(
             consumer is not None
             and consumer.run_on_npu
             and consumer.type not in memory_only_ops
             and consumer.type != Op.Mul
             and consumer.original_type != Op.Transpose
+            and all(
+                shape == op.ofm_shapes[0]
+                for tens, shape in zip((consumer.ifm, consumer.ifm2), consumer.ifm_shapes)
+                if tens == op.ofm
+            )
             for consumer in op.ofm.consumer_list
         ):
             # SplitSliceRead can be performed by tensor consumer(s)
